@@ -22,6 +22,18 @@ type _Lexer interface {
 	ReadToken() (Token, int)
 }
 
+// The other package-level names of the real parser.gen.go, so that a clash
+// with user code is reported now and not when the generated code is compiled.
+var _rules, _termCounts, _actions, _goto []int32
+
+type _Bounds struct{}
+
+type _item struct{}
+
+func _cast[T any](v any) T { panic("not-implemented") }
+
+func _Find(table []int32, y, x int32) (int32, bool) { panic("not-implemented") }
+
 func (p *lox) parse(l _Lexer) bool {
 	panic("not-implemented")
 }
